@@ -34,9 +34,17 @@ use thiserror::Error as ThisError;
 pub enum FarewellError {
     /// Call results should be empty at the end of execution thanks to a execution invariant.
     #[error(
-        "after finishing execution of supplied AIR, there are some unprocessed call results: `{0:?}`, probably a wrong call_id used"
+        "after finishing execution of supplied AIR, there are some unprocessed call results: `{:?}`, probably a wrong call_id used",
+        sorted_by_call_id(.0)
     )]
     UnprocessedCallResult(CallResults),
+}
+
+/// Call results are kept in a hash map; order them to make the error message deterministic.
+fn sorted_by_call_id(
+    call_results: &CallResults,
+) -> std::collections::BTreeMap<&String, &air_interpreter_interface::CallServiceResult> {
+    call_results.iter().collect()
 }
 
 impl ToErrorCode for FarewellError {
